@@ -163,7 +163,8 @@ class SocketWrapper:
                 # residual bytes at beginning of stream
                 break
             if chunk_length != 0:
-                chunk = instream.read(chunk_length)
+                # never ask for more than the segment can hold (absurd sizes overflow read())
+                chunk = instream.read(min(chunk_length, len(segment)))
                 crlf = instream.read(2)  # CRLF which terminates the chunk
                 if len(chunk) != chunk_length or len(crlf) != 2:
                     # premature end of chunk bytes or of their terminator
